@@ -185,3 +185,35 @@ func (w *World) registerEndpointIntrinsics() {
 	}
 	I["github.com/coreos/go-oidc/v3/oidc.ClientContext"] = func(e *Exec, fn *ssa.Function, a []Value) Value { return a[0] }
 }
+
+// ---- redislock (third-party) at its documented boundary ----
+
+func (w *World) registerRedisIntrinsics() {
+	I := w.intrinsics
+	// vRedisClient(kind) (harness-defined natively over miniredis): 0 healthy and lock free,
+	// 1 lock held by somebody else, 2 server unreachable
+	I["@vRedisClient"] = func(e *Exec, fn *ssa.Function, a []Value) Value {
+		k, ok := a[0].(*Term).intVal()
+		if !ok {
+			e.unsupported("redis scenario must be concrete")
+		}
+		e.hidden["redis-scenario"] = int(k)
+		return nilIface
+	}
+	rl := "github.com/bsm/redislock"
+	I[rl+".New"] = func(e *Exec, fn *ssa.Function, a []Value) Value {
+		return &Pointer{obj: e.newObject(nil, &OpaqueVal{name: "redislock.Client"}, "redislock")}
+	}
+	I["(*"+rl+".Client).Obtain"] = func(e *Exec, fn *ssa.Function, a []Value) Value {
+		k, _ := e.hidden["redis-scenario"].(int)
+		switch k {
+		case 0:
+			return tuple(&Pointer{obj: e.newObject(nil, &OpaqueVal{name: "redislock.Lock"}, "lock")}, nilIface)
+		case 1:
+			g := e.w.ssaPkgs[rl].Var("ErrNotObtained")
+			return tuple(&Pointer{}, e.load(&Pointer{obj: e.globalObj(g)}))
+		}
+		return tuple(&Pointer{}, e.newError("dial tcp: connection refused"))
+	}
+	I["(*"+rl+".Lock).Release"] = func(e *Exec, fn *ssa.Function, a []Value) Value { return nilIface }
+}
